@@ -1,11 +1,17 @@
 (* C05 Invalid input is refused, with the matching error, however it is spelled *)
 Load "coq/props/Hdr".
-From PM Require Import Lemmas Segs C05 C05b C08rel Final.
+From PM Require Import Lemmas Segs C02 Lang C05 C05b C08rel Final.
 Lemma src_cfg_ok : cfg_ok cfg. Proof. sc. Qed.
 (* never accepted: an accepted string is a well-formed skeleton all of whose checks succeed (every shape) *)
 Theorem C05_never_accepted : forall (T E : Type) (sh : shape T E) s x, parse cfg sh s = Ok x -> exists r, WFr cfg r /\ s = asm r /\ checks cfg sh r = Ok x.
 Proof. intros T E sh s x. apply parse_sound. Qed.
 Print Assumptions C05_never_accepted.
+(* refusal in general: a string that is not a legal spelling (C02's spelling_ok: well-formed skeleton, valid type, every piece valid UTF-8 without a
+   hidden '/', no escaped dot segment, every qualifier item `valid key = value` with no key repeated after a non-empty value) is refused by every shape *)
+Theorem C05_not_a_legal_spelling_is_refused : forall (T E : Type) (sh : shape T E) s,
+  (forall sp, spelling_ok cfg sp -> s <> asm (raw_of sp)) -> exists e, parse cfg sh s = Err e.
+Proof. intros T E sh. apply (not_a_spelling_is_refused cfg); sc. Qed.
+Print Assumptions C05_not_a_legal_spelling_is_refused.
 (* the first failing check, in source order, is the error returned *)
 Theorem C05_error_order : forall (T E : Type) (sh : shape T E) r, WFr cfg r -> parse cfg sh (asm r) = checks cfg sh r.
 Proof. intros T E sh r. apply C05_first. exact src_cfg_ok. Qed.
